@@ -651,6 +651,36 @@ fn c03_case<const N: usize>(seed: u64, i: u64, regime: Regime, stream: u64) -> C
                    "law": detail}),
         );
     }
+    // "indistinguishable by lookups" has to survive continued operation: replicas that merged each
+    // other's states are handed the same further delivery - any operation of the history, again or for
+    // the first time, through any source - and must still answer lookups alike
+    {
+        let b1 = merged(&b, &a);
+        let c1 = merged(&c, &b1);
+        let a1 = merged(&a, &c1);
+        let b2 = merged(&b1, &a1);
+        let c2 = merged(&c1, &a1);
+        'outer: for (key, stamp, del) in h.per_origin.iter().flatten() {
+            for src in 0..N {
+                let op = Op { key: *key, ts: *stamp, del: *del, src };
+                let (mut x, mut y, mut z) = (a1.clone(), b2.clone(), c2.clone());
+                apply(&mut x, &op);
+                apply(&mut y, &op);
+                apply(&mut z, &op);
+                out.count("follow_up_deliveries_to_merged_replicas", 1);
+                if live_of(&x, keys) != live_of(&y, keys) || live_of(&x, keys) != live_of(&z, keys) {
+                    out.violate(
+                        format!("C03:merged-replicas-distinguishable-after-the-same-further-delivery:{}", if regime == Regime::Prefix { "gap-free-prefix" } else { "one-window" }),
+                        json!({"sources": N, "history": history_json(&h),
+                            "a": ha.iter().map(op_json).collect::<Vec<_>>(), "b": hb.iter().map(op_json).collect::<Vec<_>>(), "c": hc.iter().map(op_json).collect::<Vec<_>>(),
+                            "delivered_to_all_three": op_json(&op),
+                            "a1": listing_json(&enumerate(&x)), "b2": listing_json(&enumerate(&y)), "c2": listing_json(&enumerate(&z))}),
+                    );
+                    break 'outer;
+                }
+            }
+        }
+    }
     if !out.violations.is_empty() {
         out.replay = Some(json!({"mode": "random", "seed": seed, "index": i, "sources": N, "regime": format!("{regime:?}"), "stream": stream}));
     }
